@@ -11,11 +11,27 @@ CONSTANTS
   Reuse = %s
   KF_NoRespawn = %s
   MaxClients = %d
+  MaxRequeue = 2
 CONSTRAINT Bounded
 INVARIANT C19_Bound
 INVARIANT C19_OwnResult
 INVARIANT C19_NoStranding
 INVARIANT C19_OneAtATime
+CHECK_DEADLOCK FALSE
+"""
+
+
+RPL_CFG = """SPECIFICATION FairSpec
+CONSTANTS
+  PoolSize = %d
+  NReq = %d
+  Reuse = %s
+  KF_NoRespawn = %s
+  MaxClients = 99
+  MaxRequeue = 2
+INVARIANT C19_Bound
+INVARIANT C19_OwnResult
+PROPERTY C19_AllServed
 CHECK_DEADLOCK FALSE
 """
 
@@ -71,6 +87,13 @@ def run(tier):
             (((2, 4, 'TRUE', 'FALSE'),) if not q else ()):
         mc.append({'name': 'RelayPool size=%d requests=%d reuse=%s' % (ps, nreq, reuse), 'module': 'RelayPool',
                    'cfg': flow.write_cfg(wd, 'rp_%d_%d_%s.cfg' % (ps, nreq, reuse), RP_CFG % (ps, nreq, reuse, kf, 5 if q else 6))})
+    # liveness: under weak fairness every attempt is eventually served (no state constraint: the downstream may time a waiting
+    # connection out MaxRequeue times, everything else is finite by itself)
+    for ps, nreq, reuse in ((1, 3, 'TRUE'), (2, 3, 'TRUE'), (0, 3, 'FALSE')) + (((3, 4, 'TRUE'),) if not q else ()):
+        mc.append({'name': 'RelayPool liveness (every attempt eventually served) size=%d requests=%d reuse=%s' % (ps, nreq, reuse),
+                   'module': 'RelayPool', 'cfg': flow.write_cfg(wd, 'rpl_%d_%d_%s.cfg' % (ps, nreq, reuse), RPL_CFG % (ps, nreq, reuse, 'FALSE'))})
+    mc.append({'name': 'deviation KF_NoRespawn under fairness: TLC must find the attempt that is never served', 'module': 'RelayPool',
+               'cfg': flow.write_cfg(wd, 'rpl_kf.cfg', RPL_CFG % (1, 3, 'FALSE', 'TRUE')), 'expect_violation': ['temporal']})
     mc.append({'name': 'deviation KF_NoRespawn: TLC must find the stranded request', 'module': 'RelayPool',
                'cfg': flow.write_cfg(wd, 'rp_kf.cfg', RP_CFG % (1, 3, 'FALSE', 'TRUE', 5)), 'expect_violation': ['C19_NoStranding']})
     # connection reuse at the level of one client: spec/RelayClient.tla with two messages on one connection
